@@ -4,7 +4,6 @@
 use crate::util::Rng;
 use chrono::{Offset, TimeZone, Utc};
 use chrono_tz::{Tz, TZ_VARIANTS};
-use libhaystack::timezone::make_date_time_with_tz;
 use libhaystack::units::units_generated::UNITS;
 use libhaystack::units::Unit;
 use libhaystack::val::*;
@@ -234,15 +233,12 @@ impl Gen {
     }
 
     pub fn datetime(&mut self) -> DateTime {
-        loop {
-            let tz = *self.rng.pick(&self.zones.clone());
-            let secs = self.rng.range(315_532_800, 2_840_140_800); // 1980 .. 2060
-            let utc = Utc.timestamp_opt(secs, self.nanos()).unwrap();
-            if let Ok(dt) = make_date_time_with_tz(&utc.with_timezone(&Utc.fix()), short_name(tz.name())) {
-                return dt.into();
-            }
-            // zone not reachable by its short name: the C06 check reports that; here just try another
-        }
+        // built from the chrono value directly: no zone-name lookup is involved in constructing the input,
+        // so a zone whose name the decoders cannot resolve shows up as a round-trip failure, not as a skipped input
+        let tz = *self.rng.pick(&self.zones.clone());
+        let secs = self.rng.range(315_532_800, 2_840_140_800); // 1980 .. 2060
+        let utc = Utc.timestamp_opt(secs, self.nanos()).unwrap();
+        DateTime::from(utc.with_timezone(&tz))
     }
 
     pub fn scalar(&mut self) -> Value {
